@@ -574,6 +574,8 @@ func TestVerifC11(t *testing.T) {
 	c11BrokenSessionsDB(rep, up, routes, methods)
 	c11NoLimiter(rep, up)
 	c11GLinet(rep, up, routes, methods)
+	c11UnusableHashes(rep, up)
+	c11ExpiryAfterRestart(rep, up)
 	c11Shutdown(rep, up)
 }
 
@@ -773,6 +775,148 @@ func c11BrokenSessionsDB(rep *verifkit.Report, up *sysUpstream, routes []string,
 			rep.Violate("unauthenticated-not-refused:session-db-unopenable", fmt.Sprintf("with an unopenable session database the server came up and %s %s without credentials answered %d", m, route, r.Status),
 				map[string]any{"route": route, "status": r.Status, "body_head": sysTail(r.Body, 200)})
 		}
+	}
+}
+
+// c11UnusableHashes: besides the administrator the configuration lists
+// accounts whose stored password is not a bcrypt hash the program can check
+// (another hash scheme, plain text, a truncated hash).  No password opens
+// such an account, neither through Basic credentials nor through the login
+// call.
+func c11UnusableHashes(rep *verifkit.Report, up *sysUpstream) {
+	good := sysPasswordHash()
+	users := [][2]string{
+		{"legacy-apr1", "$apr1$Zl6b7Lq1$3rEXlv3nUYcIvZ1dUbqFa."},
+		{"legacy-sha512", "$6$rounds=5000$saltsalt$Vn0mGmVhRlNmDoHW5hyXmSLmMqMzQ2cCEXbHpmFVhbIfBYP5SCl3DhZpX9Y6P6zGm8hXqXbJv0mXbL1V3mR5a/"},
+		{"legacy-plain", "hunter2"},
+		{"legacy-truncated", good[:29]},
+		{"legacy-newer-version", "$3a$" + good[4:]},
+		{"legacy-cost-99", good[:4] + "99" + good[6:]},
+	}
+	extra := ""
+	for _, u := range users {
+		extra += fmt.Sprintf("  - name: %s\n    password: %q\n", u[0], u[1])
+	}
+	in, err := sysStart("", sysConfOpts{UpstreamPort: up.Port, ExtraUsers: extra})
+	if err != nil {
+		// (A program that refuses to start with such accounts is fine.)
+		rep.Event("unusable_hash_phase_server_refused_to_start")
+
+		return
+	}
+	defer func() {
+		in.Kill()
+		_ = os.RemoveAll(in.Dir)
+	}()
+	rep.Class("configurations_with_accounts_whose_hash_cannot_be_checked")
+	for _, u := range users {
+		for _, pw := range []string{"", "x", sysPass, u[1], "anything at all"} {
+			for _, route := range []string{"/control/status", "/control/clients", "/control/querylog"} {
+				r := c11Raw(in.WebPort, "GET", route, map[string]string{"Authorization": "Basic " + base64.StdEncoding.EncodeToString([]byte(u[0]+":"+pw))}, "")
+				rep.Eval(true, "unusable-hash|basic|"+u[0]+"|"+pw+"|"+route)
+				rep.Class("requests_with_credentials_of_an_account_whose_hash_cannot_be_checked")
+				if r.Status != 403 && r.Status != 401 && r.Status != 302 && r.Status != 0 {
+					rep.Violate("unauthenticated-not-refused:account-with-unusable-hash:basic", fmt.Sprintf("GET %s with Basic credentials of %s (stored password is not a checkable bcrypt hash) and password %q answered %d", route, u[0], pw, r.Status),
+						map[string]any{"user": u[0], "stored": u[1], "password": pw, "status": r.Status, "body_head": sysTail(r.Body, 200)})
+
+					return
+				}
+			}
+			hc := &http.Client{Timeout: 10 * time.Second, CheckRedirect: func(*http.Request, []*http.Request) error { return http.ErrUseLastResponse }}
+			req, _ := http.NewRequest("POST", fmt.Sprintf("http://127.0.0.1:%d/control/login", in.WebPort), strings.NewReader(fmt.Sprintf(`{"name":%q,"password":%q}`, u[0], pw)))
+			req.Header.Set("Content-Type", "application/json")
+			resp, rerr := hc.Do(req)
+			rep.Eval(true, "unusable-hash|login|"+u[0]+"|"+pw)
+			if rerr != nil {
+				continue
+			}
+			cookie := ""
+			for _, c := range resp.Cookies() {
+				if c.Name == "agh_session" && c.Value != "" {
+					cookie = c.Value
+				}
+			}
+			_ = resp.Body.Close()
+			opened := false
+			if cookie != "" {
+				opened = c11Raw(in.WebPort, "GET", "/control/status", map[string]string{"Cookie": "agh_session=" + cookie}, "").Status == 200
+			}
+			if resp.StatusCode == 200 || opened {
+				rep.Violate("login-accepted-wrong-credentials:account-with-unusable-hash", fmt.Sprintf("POST /control/login as %s (stored password is not a checkable bcrypt hash) with password %q answered %d; the cookie opens a protected route: %v", u[0], pw, resp.StatusCode, opened),
+					map[string]any{"user": u[0], "stored": u[1], "password": pw, "status": resp.StatusCode})
+
+				return
+			}
+		}
+	}
+	if _, lerr := c11Login(in); lerr != nil {
+		rep.Inconcl("unusable-hash phase: the administrator's right credentials are not accepted: " + lerr.Error())
+	}
+}
+
+// c11ExpiryAfterRestart: with a session lifetime of a few seconds one session
+// is opened early and several late; the program is restarted on the same
+// session database; once the early session's lifetime is over (and the late
+// ones' is not) the early cookie must be refused.
+func c11ExpiryAfterRestart(rep *verifkit.Report, up *sysUpstream) {
+	const ttl = 8 * time.Second
+	in, err := sysStart("", sysConfOpts{UpstreamPort: up.Port, SessionTTL: "8s"})
+	if err != nil {
+		rep.Inconcl("expiry phase start: " + err.Error())
+
+		return
+	}
+	defer func() {
+		in.Kill()
+		_ = os.RemoveAll(in.Dir)
+	}()
+	early, lerr := c11Login(in)
+	earlyAt := time.Now() // not before the session was created
+	if lerr != nil {
+		rep.Inconcl("expiry phase: " + lerr.Error())
+
+		return
+	}
+	time.Sleep(5 * time.Second)
+	var late []string
+	for k := 0; k < 4; k++ {
+		if c, e := c11Login(in); e == nil {
+			late = append(late, c)
+		}
+	}
+	lateAt := time.Now()
+	if !in.Stop(20 * time.Second) {
+		rep.Inconcl("expiry phase: the server did not stop")
+
+		return
+	}
+	in2, rerr := sysRestart(in, sysConfOpts{UpstreamPort: up.Port, SessionTTL: "8s"})
+	if rerr != nil {
+		rep.Inconcl("expiry phase restart: " + rerr.Error())
+
+		return
+	}
+	defer in2.Kill()
+	in = in2
+	// Until two seconds after the end of the early session's lifetime.
+	if d := time.Until(earlyAt.Add(ttl + 2*time.Second)); d > 0 {
+		time.Sleep(d)
+	}
+	r := c11Raw(in.WebPort, "GET", "/control/status", map[string]string{"Cookie": "agh_session=" + early}, "")
+	lateAlive := 0
+	if time.Since(lateAt) < ttl-2*time.Second {
+		for _, c := range late {
+			if c11Raw(in.WebPort, "GET", "/control/status", map[string]string{"Cookie": "agh_session=" + c}, "").Status == 200 {
+				lateAlive++
+			}
+		}
+	}
+	rep.Eval(true, "expired-session-after-restart")
+	rep.Class("expired_session_presented_after_restart")
+	rep.EventN("younger_sessions_still_valid_after_restart", lateAlive)
+	if r.Status == 200 {
+		rep.Violate("unauthenticated-not-refused:expired-cookie:after-restart", fmt.Sprintf("a session cookie whose lifetime (%s) ended %s ago opens GET /control/status after a restart, while %d younger sessions are stored", ttl, time.Since(earlyAt.Add(ttl)).Round(100*time.Millisecond), len(late)),
+			map[string]any{"status": r.Status, "younger_sessions_still_valid": lateAlive})
 	}
 }
 
